@@ -77,3 +77,23 @@ Example ex_tree_reaches_parallel :
   l_cfg (fst (run_loop (flatten false ex_tree) lstate (large_step lg_fixed ex_fixed (flatten false ex_tree)) l_cfg 12%nat
                        l_pristine x_init [[101]; [101]])) = [0; 2; 3; 5; 6; 8; 9]%nat.
 Proof. vm_compute. reflexivity. Qed.
+
+(* Outside the reach of the theorems: histories.  The engines keep the values of all histories in one
+   set of states; a deep history whose parent has a descendant with a history of its own shares bits
+   with it.  s6{deep h10 (default s7), s7{shallow h11, <initial> -> s8, s8 --e--> h10}}: on e the
+   engine model exits s8 and s7, h11 records s8, h10 (never recorded) finds s8 and restores it
+   without s7. *)
+Definition kho_tree : tree :=
+  let tr_ v ev tg := {| tt_vid := v; tt_event := ev; tt_cond := None; tt_targets := tg; tt_internal := false; tt_body := [] |} in
+  TNode KScxml 0 None [] [] [] []
+    [TNode KState 6 None [] [] [] []
+       [TNode KHistDeep 10 None [tr_ 102 None (Some [7])] [] [] [] [];
+        TNode KState 7 None [] [] [] []
+          [TNode KHistShallow 11 None [tr_ 103 None (Some [8])] [] [] [] [];
+           TNode KInitial 12 None [tr_ 104 None (Some [8])] [] [] [] [];
+           TNode KState 8 None [tr_ 504 (Some [101]) (Some [10])] [] [] [] []]]].
+
+Example kho_illegal :
+  let c := flatten false kho_tree in
+  legal_configb c (l_cfg (fst (run_loop c lstate (large_step lg_fixed ex_fixed c) l_cfg 12%nat l_pristine x_init [[101]]))) = false.
+Proof. vm_compute. reflexivity. Qed.
